@@ -41,5 +41,4 @@ NOT_BUILT = {
  "C30": "contract designed (DESIGN section 4); bounded inductiveness enumeration not built yet",
  "C38": "contract designed (DESIGN section 4); IR-graph enumerator not built",
  "C46": "contract designed (DESIGN section 4); bounded contract enumeration not built yet",
- "C47": "contract designed (DESIGN section 4); not built yet",
 }
